@@ -53,14 +53,16 @@ EXCS = ["KeyError", "OSError", "ValueError", "RecursionError", "RigFault", "Type
         "ZeroDivisionError", "MemoryError", "IndexError", "RuntimeError", "UnicodeError"]
 # every type is injected with every message shape: with a message, no args, "", whitespace-only, multi-line,
 # non-string args, and an instance whose __str__/__repr__ raise
-VARIANTS = list(TR.EXC_VARIANTS)
+VARIANTS = ["noargs", "msg", "strraises", "ws", "empty", "nonstr", "multiline"]   # enumeration order: arg-less first
+assert set(VARIANTS) == set(TR.EXC_VARIANTS)
 
 
 def pick_exc(rng: random.Random, k: Optional[int] = None) -> str:
     """`Type:variant`; with `k` the (type, variant) pair is enumerated systematically"""
     if k is not None:
         return f"{EXCS[k % len(EXCS)]}:{VARIANTS[(k // len(EXCS)) % len(VARIANTS)]}"
-    v = "msg" if rng.random() < 0.3 else rng.choice(VARIANTS[1:])
+    r = rng.random()
+    v = "msg" if r < 0.25 else ("noargs" if r < 0.5 else rng.choice(VARIANTS[2:]))
     return f"{rng.choice(EXCS)}:{v}"
 
 
@@ -112,6 +114,11 @@ REAL_SITES: Dict[str, Dict[str, Any]] = {
     "sidecar_created_at": {"base": "same"},
     # store hooks touched by the snapshot writer (cadence turns) and the boot loader
     "store_hook_export": {"base": "same", "needs": "hooks"},
+    # export_state() "succeeds" with something the writer cannot encode (shape drawn per case)
+    "store_hook_export#shape": {"base": "same", "needs": "hooks", "shape": True},
+    # GEL observe / decay tick (fail-soft since fix C20_gel_observe_tick_fail_soft): idle = the pass does nothing
+    "gel_observe": {"base": "stub", "idle": {"mode": "stub", "ret": {}}},
+    "gel_tick": {"base": "stub", "idle": {"mode": "stub", "ret": {}}},
     "store_hook_import": {"base": "same", "needs": "hooks", "patch": "completes_only", "boot_file": True},
     # the fusion layer "succeeds" with malformed output (real fuse, damaged afterwards): non-float scores only
     # affect the best-effort enrichment (= fault-free run); a None entry aborts the block before anything is applied
@@ -179,6 +186,58 @@ def header_payload(rng: random.Random) -> Tuple[str, str, Any]:
     return "hp:" + kind, name, json.dumps(hdr) + "\n" + body
 
 
+def foreign_gel(rng: random.Random) -> Tuple[str, str, Any]:
+    """a well-formed, loadable snapshot written by "someone else": its GEL section has records the engine's own
+    passes never produce (null / non-dict attrs, odd attr fields, null / string / list weights, missing or non-string
+    src/dst, non-dict edge records, list-form edges, odd nodes / meta).  The loader accepts it; with graph.enabled
+    every GEL pass (observe, decay tick, merge / split / promotion) then runs over those records."""
+    eps = ["ep0", "ep1", "ep2", "n:x", "a"]
+
+    def edge() -> Any:
+        if rng.random() < 0.12:
+            return rng.choice([None, 5, "edge", [1, 2], True, []])
+        ed: Dict[str, Any] = {"rel": rng.choice(["coact", "coact", "concept", None, 3])}
+        for k in ("src", "dst"):
+            r = rng.random()
+            if r < 0.8:
+                ed[k] = rng.choice(eps)
+            elif r < 0.92:
+                ed[k] = rng.choice([None, 1, 0, True, ["a"], {"id": "a"}])
+        r = rng.random()
+        if r < 0.6:
+            ed["weight"] = rng.choice([0.5, 0.9, -0.4, 0.0, 1, 1e-9])
+        elif r < 0.9:
+            ed["weight"] = rng.choice([None, "0.5", "w", [1], {"v": 1}, True, 1e400, -1e400, "nan"])
+        r = rng.random()
+        if r < 0.45:
+            ed["attrs"] = rng.choice([None, "x", [1], 0, 7, True, [], ""])
+        elif r < 0.75:
+            ed["attrs"] = {"coact": rng.choice([1, "x", None, [1], 2.5, "3"]), "last_seen_turn": rng.choice([None, "t", 1, [2]])}
+        elif r < 0.9:
+            ed["attrs"] = {}
+        if rng.random() < 0.3:
+            ed["updated_at"] = rng.choice([None, "2024", 5, {"t": 1}])
+        return ed
+    n = rng.choice([1, 2, 3, 5])
+    if rng.random() < 0.7:
+        edges: Any = {rng.choice(["k%d" % j, "ep0→ep1", "a→b", ""]): edge() for j in range(n)}
+    else:
+        edges = [edge() for _ in range(n)]
+    gel: Any = {"edges": edges}
+    r = rng.random()
+    if r < 0.5:
+        gel["nodes"] = rng.choice([None, [], {}, "n", 5, [None, {"id": "a"}, 3], {"a": None, "b": 5, "c": {"id": "c", "attrs": None}}])
+    r = rng.random()
+    if r < 0.5:
+        gel["meta"] = rng.choice([None, [], "m", 7, {"merges": None, "splits": "x", "promotions": 3, "concept_nodes_count": "many"},
+                                  {"edges_count": None, "schema": 5}])
+    if rng.random() < 0.08:
+        gel = rng.choice([None, [], "gel", 5, {"edges": None}, {"edges": "e"}])
+    body: Dict[str, Any] = {"version_etag": rng.choice(["3", "7", 12]), "schema_version": "v1", "turn": 1, "agent": "a1"}
+    body[rng.choice(["gel", "gel", "graph"])] = gel
+    return "foreign_gel", rng.choice(["state_a1.json", "snap_000003.json"]), json.dumps(body)
+
+
 VALID_SNAPSHOT = {
     "turn": 1, "agent": "a1", "version_etag": "3", "applied": 1, "deltas": [], "schema_version": "v1",
     "store": {"weights": [{"target_kind": "node", "target_id": "n:x", "attr": "weight", "value": 0.2}]},
@@ -232,7 +291,7 @@ def real_world_spec(rng: random.Random) -> dict:
         "t3": {"allow_reflection": True, "backend": rng.choice(["llm", "llm", "rulebased"]), "trace": {"enabled": True}},
         "perf": {"enabled": True, "metrics": {"enabled": True, "report_memory": True}},
         "t2": {"hybrid": {"enabled": True}, "quality": {"enabled": False, "shadow": True}},
-        "t4": {"cache_bust_mode": "on-apply", "snapshot_every_n_turns": rng.choice([1, 1, 2])},
+        "t4": {"cache_bust_mode": "on-apply", "snapshot_every_n_turns": rng.choice([1, 1, 2, 3])},
         "scheduler": {"budgets": {"ops_reflection": 2}},
     }
     return {"cfg": cfg, "graph": {"nodes": nodes, "edges": edges}, "episodes": eps, "logs_list": "plain"}
@@ -252,9 +311,14 @@ class RealFaults(Component):
             texts.append(rng.choice(["hello world", "reply river"]))
         case: Dict[str, Any] = {"kind": kind, "spec": spec, "texts": texts, "faults": []}
         if kind == "garbage":
-            stream = (i // 5) % 3
-            if stream == 0:
-                tag, mk = GARBAGE[(i // 15) % len(GARBAGE)]
+            stream = (i // 5) % 4
+            if stream == 3:
+                tag, name, content = foreign_gel(rng)
+                # the episodes the foreign edges mention are retrieved, so the observe pass touches those records
+                texts = [rng.choice(["river reply stone", "hello stone world", "reply stone tree"]) for _ in texts]
+                case["texts"] = texts
+            elif stream == 0:
+                tag, mk = GARBAGE[(i // 20) % len(GARBAGE)]
                 name, content = mk(rng)
             elif stream == 1:
                 tag, content = mutate_snapshot(rng)
@@ -274,7 +338,9 @@ class RealFaults(Component):
                                        "turn": rng.randrange(2)})
         seen, uniq = set(), []
         for f in case["faults"]:        # at most one behaviour per underlying rig site
-            key = (REAL_SITES[f["site"]].get("rig") or (f["site"],))[0]
+            key = (REAL_SITES[f["site"]].get("rig") or (f["site"].split("#")[0],))[0]
+            if REAL_SITES[f["site"]].get("shape"):
+                f["how"] = TR.EXPORT_SHAPES[(i // len(sites) + rng.randrange(3)) % len(TR.EXPORT_SHAPES)]
             if key not in seen:
                 seen.add(key)
                 uniq.append(f)
@@ -320,7 +386,9 @@ class RealFaults(Component):
                     extra = REAL_SITES.get(f["site"], {}).get("with") or {}
                     beh.update(copy.deepcopy(extra))
                     rig = REAL_SITES.get(f["site"], {}).get("rig")
-                    if rig:
+                    if REAL_SITES.get(f["site"], {}).get("shape"):
+                        beh["store_hook_export"] = {"mode": "shape", "how": f.get("how", "deep_list")}
+                    elif rig:
                         beh[rig[0]] = dict(rig[1])
                     else:
                         beh[f["site"]] = TR.fault(f["site"], f["exc"], 0 if f["site"].startswith("gel_apply") else None)
@@ -435,7 +503,7 @@ MODEL_SITES = ["bootLoad", "t1", "t2", "gelObserve", "deliberate", "rag", "t3Tra
                "gelTick", "gelMergeCand", "gelApplyMerge", "gelSplitCand", "gelApplySplit", "gelPromote", "gelApplyPromo",
                "storeBatch", "storeOne", "cacheInvalidate", "snapshotBody", "sidecarWrite",
                "reflectRun", "reflectCompute", "reflectWrite", "reflectLog", "health"]
-DECLARED = ["bootLoad", "gelMergeCand", "gelApplyMerge", "gelSplitCand", "gelApplySplit", "gelPromote", "gelApplyPromo",
+DECLARED = ["bootLoad", "gelObserve", "gelTick", "gelMergeCand", "gelApplyMerge", "gelSplitCand", "gelApplySplit", "gelPromote", "gelApplyPromo",
             "reflectRun", "reflectCompute", "reflectWrite", "reflectLog", "adapterBuild", "t3Trace",
             "cacheInvalidate", "storeBatch", "storeOne", "sidecarWrite"]
 RIG2MODEL = {"boot_load": "bootLoad", "t1": "t1", "t2": "t2", "gel_observe": "gelObserve", "deliberate": "deliberate",
@@ -526,7 +594,7 @@ class Skeleton(Component):
             return {"t3_ops": t0["plan"]["nOps"]}
         return {}
 
-    IDLEABLE = {"bootLoad", "adapterBuild", "t3Trace", "reflectCompute", "reflectWrite", "reflectLog", "sidecarWrite",
+    IDLEABLE = {"gelObserve", "gelTick", "bootLoad", "adapterBuild", "t3Trace", "reflectCompute", "reflectWrite", "reflectLog", "sidecarWrite",
                 "storeBatch", "gelMergeCand", "gelApplyMerge", "gelSplitCand", "gelApplySplit", "gelPromote", "gelApplyPromo"}
     GELBLOCK = {"gelMergeCand", "gelApplyMerge", "gelSplitCand", "gelApplySplit", "gelPromote", "gelApplyPromo"}
 
@@ -979,6 +1047,13 @@ class QualityLayers(Component):
             offs["trace"] = self._call(case, {"shadow": False}, ["cfgSnap", "trace"])
         if "mmr" in F and "mmrFallback" in F:
             offs["mmr"] = self._call(case, {"mmrOn": False}, ["mmr", "mmrFallback"])
+        env0 = case["env"]
+        if "mmr" in F or "mmrFallback" in F or env0["mmr"].get("bad") or env0["mmrFallback"].get("bad"):
+            healthy = copy.deepcopy(case)
+            for k in ("mmr", "mmrFallback"):
+                healthy["faults"].pop(k, None)
+                healthy["env"][k].pop("bad", None)
+            offs["fusionflag"] = self._call(healthy)
         if case["env"]["fuse"].get("bad") == "bad_score" and "fuse" not in F:
             clean = copy.deepcopy(case)
             clean["env"]["fuse"].pop("bad")
@@ -1010,6 +1085,11 @@ class QualityLayers(Component):
         strip = lambda d: {k: v for k, v in d.items() if k not in ("calls", "offs")}  # noqa: E731
         for layer, off in io.get("offs", {}).items():
             if "raised" in io or "raised" in off:
+                continue
+            if layer == "fusionflag":
+                res.append(("quality_fusion_flag_independent_of_mmr", io["fusionUsed"] == off["fusionUsed"],
+                            f"whatever the MMR layers do (faults {case['faults']}), the fusion flag must be the one of the run with "
+                            f"healthy MMR layers: got fusionUsed={io['fusionUsed']} (order {io['retrieved']}), healthy run {off['fusionUsed']}"))
                 continue
             if layer == "badscore":
                 res.append(("quality_bad_scores_eq_clean", strip(io) == strip(off),
@@ -1049,14 +1129,77 @@ class QualityLayers(Component):
             yield dict(case, faults=f)
 
 
-COMPONENTS = [RealFaults(), Skeleton(), QualityLayers()]
+# ---------------------------------------------------------------------------------------------
+# (d) store hooks on the snapshot path: every export fault shape x cadence, enumerated
+# ---------------------------------------------------------------------------------------------
+class StoreExportShapes(Component):
+    """The store section of a snapshot is best-effort.  Scripted stages, REAL apply_changes / write_snapshot, a store
+    whose `export_state()` raises (every exception message shape) or returns something the writer cannot encode
+    (every `TR.EXPORT_SHAPES`), on snapshot-cadence and non-cadence turns (every = 1, 2, 3; three turns).  Monitors
+    only (no model request): every turn completes, and result + canonical records + weights equal the healthy-store
+    run of the same script."""
+    name = "store_export"
+    monitors_only = True
+    budget = {"quick": 2 * 3 * (len(TR.EXPORT_SHAPES) + len(VARIANTS)), "thorough": 1200, "search": 400}
+
+    def gen(self, rng: random.Random, i: int) -> dict:
+        modes = [("shape", h) for h in TR.EXPORT_SHAPES] + [("raise", f"{EXCS[(i + j) % len(EXCS)]}:{v}") for j, v in enumerate(VARIANTS)]
+        mode = modes[i % len(modes)]
+        every = [1, 3, 2][(i // len(modes)) % 3]
+        return {"mode": list(mode), "every": every, "fault_turns": rng.choice([[0, 1, 2], [0, 1, 2], [2], [1]]),
+                "n_deltas": rng.choice([1, 2, 3]), "bust": rng.random() < 0.5}
+
+    def _run(self, case: dict, healthy: bool) -> List[dict]:
+        ctx: Ctx = self.ctx  # type: ignore[attr-defined]
+        spec = {"cfg": {"t4": {"snapshot_every_n_turns": case["every"], "cache_bust_mode": "on-apply" if case["bust"] else "none"}},
+                "store_hooks": True, "boot_loaded": True}
+        w = TR.build_world(ctx.tmpdir("x"), spec)
+        out = []
+        for t in range(3):
+            beh = {"t1": TR.stub({"metrics": {"tok": t}}), "t2": TR.stub({"metrics": {"tok": 10 + t}, "retrieved": []}),
+                   "deliberate": TR.stub({"ops": [{"kind": "Speak"}]}), "speak": TR.stub({"utter": f"U{t}", "metrics": {}}),
+                   "t4": TR.stub({"approved": [["node", f"n:{t}{d}", "weight", 0.1] for d in range(case["n_deltas"])], "metrics": {"tok": 20 + t}})}
+            if not healthy and t in case["fault_turns"]:
+                kind, what = case["mode"]
+                beh["store_hook_export"] = {"mode": "shape", "how": what} if kind == "shape" else TR.fault("store_hook_export", what)
+            r = TR.run_turn(w, f"text{t}", t + 1, beh)
+            out.append({"raised": r.raised, "canon": r.canon(), "store_w": r.state["store_w"], "ver": r.state["version_etag"],
+                        "snap": sorted(f for f in (r.state["snap_files"] or []) if not f.endswith(".meta")), "hits": r.fault_hits})
+            if r.raised is not None:
+                break
+        return out
+
+    def impl(self, case: dict) -> Any:
+        return {"faulty": self._run(case, False), "healthy": self._run(case, True)}
+
+    def monitors(self, case, io):
+        f, h = io["faulty"], io["healthy"]
+        res = [("store_export_turn_completes", all(r["raised"] is None for r in f),
+                f"run_turn raised {[r['raised'] for r in f]} with store.export_state() fault {case['mode']} on turns {case['fault_turns']} "
+                f"(snapshot every {case['every']} turns)")]
+        if all(r["raised"] is None for r in f) and all(r["raised"] is None for r in h):
+            strip = lambda rs: [{k: v for k, v in r.items() if k != "hits"} for r in rs]  # noqa: E731
+            a, b = _canon(strip(f)), _canon(strip(h))
+            d = None if a == b else first_diff(a, b)
+            res.append(("store_export_equal_healthy_store", d is None,
+                        f"records / weights / version / snapshot files differ from the healthy-store run: {d}; fault {case['mode']}"))
+        return res
+
+    def tags(self, case, io):
+        cadence = [((t + 1) % case["every"]) == 0 for t in range(3)]
+        hit = any(r["hits"] for r in io["faulty"])
+        return [f"{case['mode'][0]}:{case['mode'][1].split(':')[-1]}", "cadence_hit" if hit else "no_cadence_turn_faulted",
+                f"every{case['every']}"] if True else ["default"]
+
+
+COMPONENTS = [RealFaults(), Skeleton(), QualityLayers(), StoreExportShapes()]
 
 
 def _run_comp(ctx: Ctx, comp: Component) -> None:
     """like core.run_component, with the idle-run monitor evaluated by Lean on the model side."""
     from harness.core import run_component
     comp.ctx = ctx  # type: ignore[attr-defined]
-    run_component(ctx, comp)
+    run_component(ctx, comp, monitors_only=bool(getattr(comp, "monitors_only", False)))
 
 
 def run(ctx: Ctx) -> None:
